@@ -3,7 +3,7 @@
    The empty-match and UTF-8 rejections are decided on the captured DFA (C03, C04); undefined
    subpatterns by C11; here: the panic-relevant decision skeleton and the greedy-dot test. *)
 From Coq Require Import List NArith.
-From LogosV Require Import Regex.Re Regex.Greedy Regex.GreedyProofs Front.Accept.
+From LogosV Require Import Regex.Re Regex.ReProofs Regex.Greedy Regex.GreedyProofs Front.Accept.
 Import ListNotations.
 
 Theorem C19_never_panics : forall es errs, run true es errs <> Panicked.
@@ -25,3 +25,10 @@ Theorem C19_greedy_old_refuted : exists r, HasGreedyDot r /\ greedy_old r = fals
 Proof. exact greedy_old_refuted. Qed.
 Theorem C19_greedy_nocap_refuted : exists r, HasGreedyDot r /\ greedy_nocap r = false.
 Proof. exact greedy_nocap_refuted. Qed.
+
+(* the default-priority arithmetic is total now; regression lemma (finding F11): as it was, the product overflowed
+   on (a{4294967295}){4294967295} - "attempt to multiply with overflow" in a build with overflow checks *)
+Theorem C19_complexity_fits : forall r, lits_small r = true -> (complexity_sat r <= usize_max)%N.
+Proof. exact complexity_sat_fits. Qed.
+Theorem C19_old_complexity_overflows : complexity_checked f11_witness = None /\ complexity_sat f11_witness = usize_max.
+Proof. exact old_complexity_overflows. Qed.
